@@ -24,9 +24,9 @@ CHECKS = {
  "C05": ("rapid positions x exhaustive 2^15 encodings; differential IsPseudoLegal vs generator membership; generated GUI move strings",
          "For generated positions ALL 32768 encodings are swept: IsPseudoLegal(m) iff the generator emits m. Generated move strings (well-formed, near misses, malformed) through `position fen F moves s` must leave the position unchanged or play exactly the generated move they name.",
          "The engine's generator is the reference here (C01 checks it against the rules).", "DESIGN.md section 5 C05"),
- "C06": ("rapid roots x limits x abort-point sweeps (every k as WithNodes(k)) x table sizes x stop-channel timings; oracle = reference legality + finality + snapshot equality; UCI go argument fuzzing",
-         "Searches on generated roots with history (incl. mates, stalemates, clock>=100, third occurrence, single reply) under depth / hard / soft node limits, every node count k in a range as abort point, five table sizes, stop channel closed before / inside an info line / by a timer, engine instances reused: returned move null or legal, null only on final roots, completed search on a final root returns (null, 0 | mated), board snapshot unchanged, follow-up search works; `go` with generated numeric arguments on the real driver. Thorough adds the spsa build with drawn in-range parameters.",
-         "Finality (no legal move, clock>=100, third occurrence) decided by the reference.", "DESIGN.md section 5 C06"),
+ "C06": ("rapid roots x limits x abort-point sweeps (every k as WithNodes(k)) x table sizes x stop-channel timings; oracle = reference legality + finality + snapshot equality; UCI go argument fuzzing after generated earlier position commands; table entries left under the root's own key (simulated signature collision)",
+         "Searches on generated roots with history (incl. mates, stalemates, clock>=100, third occurrence, single reply) under depth / hard / soft node limits, every node count k in a range as abort point, five table sizes, stop channel closed before / inside an info line / by a timer, engine instances reused: returned move null or legal, null only on final roots, completed search on a final root returns (null, 0 | mated), board snapshot unchanged, follow-up search works; `go` with generated numeric arguments on the real driver, half of the sessions after earlier conforming position commands; a drawn entry (move of another position or any 15-bit encoding) stored under the root's key before a shallow or early-aborted search. Thorough adds the spsa build with drawn in-range parameters.",
+         "Finality (no legal move, clock>=100, third occurrence) decided by the reference. Hook search.VerifTable.", "DESIGN.md section 5 C06"),
  "C07": ("rapid game fragments on carried-over tables; parsed info lines replayed on the reference rules",
          "Every info line of generated searches (fresh, game-warmed and 1024-bucket tables, via search.Go and via the UCI driver with Ponder on) must match the documented format; every pv replays legally from the root on the reference; depths strictly increase, nodes never decrease; returned move == first move of the last non-empty pv; ponder move legal after it.",
          "Line grammar taken from the format strings in search.go / uci.go.", "DESIGN.md section 5 C07"),
